@@ -43,6 +43,7 @@ KEYWORDS = set(PRIMSPEC) | set(QUALS) | set(ABIS) | {"struct", "union", "enum"}
 
 DECLS_A = """
 #define K 4
+#define Z 0
 typedef int td_i;
 enum E { E0, E1, E2 };
 struct S { int a; char b; };
@@ -58,7 +59,7 @@ DECLS = DECLS_A + DECLS_B
 # name -> namespace.  'tagged_typedef' marks the typedef whose direct target is a tagged struct
 # (DESIGN section 6, #12).
 NAMES = {
-    "K": "const", "E0": "const", "E1": "const", "E2": "const",
+    "K": "const", "Z": "const", "E0": "const", "E1": "const", "E2": "const",
     "td_i": "typedef", "td_p": "typedef", "td_s": "typedef", "td_a": "typedef",
 }
 TAGS = {"S": "struct", "St": "struct", "U": "union", "E": "enum"}
@@ -140,7 +141,7 @@ def _subst(d, piece):
     return d[:i] + piece + d[i + 1:]
 
 
-ARR_LEN = [(1, "3"), (1, None), (2, "0"), (2, "010"), (2, "0x10"), (2, "K"), (2, "E1")]
+ARR_LEN = [(1, "3"), (1, None), (2, "0"), (2, "010"), (2, "0x10"), (2, "K"), (2, "E1"), (2, "Z"), (2, "E0")]
 PTR_QUALS = [(), ("const",), ("volatile",), ("const", "volatile"), ("volatile", "const")]
 
 
